@@ -158,6 +158,11 @@ def tlc_mc(ctx, name, module, consts, invariants=(), properties=(), view=None, c
            expect='ok', spec='Spec', simulate=None, depth=None, must_cover=(), symmetry=None, heap='8g',
            action_constraints=(), env=None, dump_trace=False, extra_files=None):
     """model-check `module` under a generated cfg. expect: 'ok' or 'violation' (mechanism toggle)."""
+    # one model run never takes longer than VERIF_MC_TMO seconds (default 900): a run that does not finish is recorded as partial
+    # (a note in the evidence), so that a whole thorough check stays within tens of minutes; raise it for a deeper single run
+    tmo = min(tmo, int(os.environ.get('VERIF_MC_TMO', '900')))
+    if heap.endswith('g') and int(heap[:-1]) > 12:
+        heap = '12g'
     d = ctx.sub('mc_' + name)
     stage_specs(d)
     for fn, txt in (extra_files or {}).items():
